@@ -14,6 +14,12 @@ decomposition costs 0.3–6 s of sympy/scipy).  A returned circuit is
   `Circuit.inverse`, the final diagonal (against the observed phase layer), the off-diagonal residue and the
   ghost error term are compared with what the code returned.
 
+Constraints that leave the solver *no free parameter* (an entry imposing every parameter, alone / before fallbacks /
+on a matrix that is a mesh of the block at exactly those values; blocks without free parameters) are generated on
+purpose: `solve` then only *decides* whether the imposed values null the entry, and an accepted non-root gives a
+plausible circuit with a wrong matrix.  `solve.py: solve` itself is also run on exactly representable functions and
+compared with its Lean model (`Model/C12Solve.lean`, op `solve` of the driver).
+
 `None` is counted; it is a violation only for the blocks the elimination scheme is documented with
 (`catalog["mzi phase last"]`, `BS(θ)//PS(φ)`), with unrestricted constraints.
 """
@@ -1001,14 +1007,18 @@ def _init_worker():
 
 def run(chk: core.Check):
     chk.rule = ("random configurations (matrix kind × size × block × phase layer × PERM substitution × "
-                "ignore_identity_block × inverse_v/h × merge × constraints × precision); distinct = distinct option "
-                "signatures; non-trivial = a circuit was returned for n ≥ 3")
+                "ignore_identity_block × inverse_v/h × merge × constraints (free / partial / fully imposed, alone or with "
+                "fallbacks, on Haar matrices and on meshes of the block at the imposed values) × precision); distinct = "
+                "distinct option signatures; non-trivial = a circuit was returned for n ≥ 3; plus direct calls of "
+                "solve.py: solve compared with its Lean model (extra.solve_cases)")
     chk.assumptions = [
         "block matrices and the phase shifters' matrices are taken from each leaf's own compute_unitary() (C14)",
         "allow_error=True is not exercised (it voids the precision guarantee by design)",
         "existence (a circuit is found within max_try=10) is claimed only for catalog['mzi phase last'] and "
         "BS(theta)//PS(phi) with an unrestricted constraint; it is validated by sampling, not proved",
         "tolerance precision·4·(#cells+1): every cell leaves a residue ≤ precision (see tol_of)",
+        "the numerical minimiser inside solve is an oracle of the solve model (its observed result is replayed); "
+        "res.fun is taken to be f(res.x)",
     ]
     chk.required_branches = ["circuit", "none", "solved-block", "identity-skip", "perm-substitution", "phase-layer",
                              "no-phase-layer", "inverse_v", "inverse_h", "ignore-identity-off", "merge-off",
